@@ -22,7 +22,8 @@ Variable net : Type.
 Variable now : net -> Z.
 Variable set_dl : option Z -> net -> net.
 Variable nread : nat -> net -> rres * net.
-Notation compile := (compile net now set_dl nread).
+Variable npush : list byte -> net -> net.
+Notation compile := (compile net now set_dl nread npush).
 Variables (fuel d : nat) (rs : list route) (t : Z) (s : st net).
 Let r := compile fuel d rs t (fun s' => Cont s') s.
 Let own := own_evs s r.
@@ -31,55 +32,55 @@ Let own := own_evs s r.
    bytes available at that moment *)
 Theorem runs_only_if_matched : forall i b, In (ERun d i b) own ->
   exists mss, nth_mss rs i = Some mss /\ anymatch mss b = Yes.
-Proof. exact (c02_runs_only_if_matched net now set_dl nread fuel d rs t s). Qed.
+Proof. exact (c02_runs_only_if_matched net now set_dl nread npush fuel d rs t s). Qed.
 
 (* routes of one invocation run in configured order, none twice *)
 Theorem runs_in_order_no_repeat : StronglySorted lt (run_idxs d own).
-Proof. exact (c02_runs_in_order_no_repeat net now set_dl nread fuel d rs t s). Qed.
+Proof. exact (c02_runs_in_order_no_repeat net now set_dl nread npush fuel d rs t s). Qed.
 
 (* when route j runs, no route between the previously run one and j matches the same bytes
    (needs: matcher sets never go back on a No — property C06) *)
 Theorem decided_match_not_skipped : forall pre j b post, stable_routes rs -> own = pre ++ ERun d j b :: post ->
   forall i mss, lto (last_run d None pre) i = true -> i < j -> nth_mss rs i = Some mss -> anymatch mss b <> Yes.
-Proof. exact (c02_decided_match_not_skipped net now set_dl nread fuel d rs t s). Qed.
+Proof. exact (c02_decided_match_not_skipped net now set_dl nread npush fuel d rs t s). Qed.
 
 (* whenever the loop uses a cached routeNotMatched (`i <= lastNeedsMoreIdx`), re-evaluating the route
    on the bytes now available would also say No *)
 Theorem cache_sound : forall i b, stable_routes rs -> In (ESkip d i b) own ->
   exists mss, nth_mss rs i = Some mss /\ anymatch mss b = No.
-Proof. exact (c02_cache_sound net now set_dl nread fuel d rs t s). Qed.
+Proof. exact (c02_cache_sound net now set_dl nread npush fuel d rs t s). Qed.
 
 (* if the available bytes decide every earlier route, the route that runs is the first matching one *)
 Theorem first_match_when_decided : forall pre j b post, stable_routes rs -> own = pre ++ ERun d j b :: post ->
   (forall i mss, lto (last_run d None pre) i = true -> i < j -> nth_mss rs i = Some mss -> decided (anymatch mss b)) ->
   (exists mss, nth_mss rs j = Some mss /\ anymatch mss b = Yes) /\
   (forall i mss, lto (last_run d None pre) i = true -> i < j -> nth_mss rs i = Some mss -> anymatch mss b = No).
-Proof. exact (c02_first_match_when_decided net now set_dl nread fuel d rs t s). Qed.
+Proof. exact (c02_first_match_when_decided net now set_dl nread npush fuel d rs t s). Qed.
 
 (* the fallback is called at most once; exactly once iff the invocation hands the connection on *)
 Theorem fallback_exactly_once : count_fb d own = (if is_cont r then 1 else 0).
-Proof. exact (c02_fallback_count net now set_dl nread fuel d rs t s). Qed.
+Proof. exact (c02_fallback_count net now set_dl nread npush fuel d rs t s). Qed.
 
 (* ... it is the last thing the invocation does, on the connection state it ends in *)
 Theorem fallback_is_last : is_cont r = true -> exists own', own = own' ++ [EFallback d (avail (res_st r))].
-Proof. exact (c02_fallback_is_last net now set_dl nread fuel d rs t s). Qed.
+Proof. exact (c02_fallback_is_last net now set_dl nread npush fuel d rs t s). Qed.
 
 (* ... and only when every route after the last one that ran is decided as not matching *)
 Theorem fallback_only_when_all_no : forall b, stable_routes rs -> In (EFallback d b) own ->
   forall i mss, lto (last_run d None own) i = true -> nth_mss rs i = Some mss -> anymatch mss b = No.
-Proof. exact (c02_fallback_all_no net now set_dl nread fuel d rs t s). Qed.
+Proof. exact (c02_fallback_all_no net now set_dl nread npush fuel d rs t s). Qed.
 
 (* never after a drop (timeout, buffer full, network or matcher error): the drop is the last event
    of the invocation and the connection is not handed on *)
 Theorem fallback_never_after_drop : forall w, In (EDrop d w) own ->
   is_cont r = false /\ count_fb d own = 0 /\ exists l', proj d own = l' ++ [EDrop d w].
-Proof. exact (c02_never_after_drop net now set_dl nread fuel d rs t s). Qed.
+Proof. exact (c02_never_after_drop net now set_dl nread npush fuel d rs t s). Qed.
 
 (* whatever comes after the route list (close, the handler after a subroute, the listener
    hand-off) receives the connection exactly once, in the state the invocation ended in *)
 Theorem next_receives_connection_once : forall next,
   compile fuel d rs t next s = bind r next.
-Proof. exact (fun next => c02_next_once net now set_dl nread fuel d rs t next s). Qed.
+Proof. exact (fun next => c02_next_once net now set_dl nread npush fuel d rs t next s). Qed.
 End C02.
 
 Section C02Steps.
@@ -87,30 +88,31 @@ Variable net : Type.
 Variable now : net -> Z.
 Variable set_dl : option Z -> net -> net.
 Variable nread : nat -> net -> rres * net.
+Variable npush : list byte -> net -> net.
 
 (* after a non-terminal route matching resumes at route i+1 on the connection as its handlers left it *)
 Theorem nonterminal_continues : forall sub d i mss hs rest lm lnm stt nm (s s2 : st net),
   leo i lm = false -> is_no (stt i) && leo i lnm = false ->
   anymatch mss (avail s) = Yes ->
-  chain net now nread sub d i hs (fun st' => Cont st') (emit net now (ERun d i (avail s)) (clear net now set_dl s)) = Cont s2 ->
-  pass net now set_dl nread sub d i (Route mss hs :: rest) lm lnm stt nm s
-  = pass net now set_dl nread sub d (S i) rest (Some i) (Some i) (setst stt i SYes) nm s2.
-Proof. exact (c02_nonterminal_continues net now set_dl nread). Qed.
+  chain net now nread npush sub d i hs (fun st' => Cont st') (emit net now (ERun d i (avail s)) (clear net now set_dl s)) = Cont s2 ->
+  pass net now set_dl nread npush sub d i (Route mss hs :: rest) lm lnm stt nm s
+  = pass net now set_dl nread npush sub d (S i) rest (Some i) (Some i) (setst stt i SYes) nm s2.
+Proof. exact (c02_nonterminal_continues net now set_dl nread npush). Qed.
 
 (* after a terminal route (or a failing handler) nothing else runs *)
 Theorem terminal_stops : forall sub d i mss hs rest lm lnm stt nm (s : st net) r,
   leo i lm = false -> is_no (stt i) && leo i lnm = false ->
   anymatch mss (avail s) = Yes ->
-  chain net now nread sub d i hs (fun st' => Cont st') (emit net now (ERun d i (avail s)) (clear net now set_dl s)) = r ->
+  chain net now nread npush sub d i hs (fun st' => Cont st') (emit net now (ERun d i (avail s)) (clear net now set_dl s)) = r ->
   is_cont r = false ->
-  pass net now set_dl nread sub d i (Route mss hs :: rest) lm lnm stt nm s = PFinal r.
-Proof. exact (c02_terminal_stops_pass net now set_dl nread). Qed.
+  pass net now set_dl nread npush sub d i (Route mss hs :: rest) lm lnm stt nm s = PFinal r.
+Proof. exact (c02_terminal_stops_pass net now set_dl nread npush). Qed.
 
 Theorem terminal_stops_invocation : forall sub d rs dl next g lm lnm stt (nm : bool) (s s' : st net) r,
   (if nm then prefetch net nread (arm net now set_dl dl s) else (inl (arm net now set_dl dl s) : st net + dropwhy * st net)) = inl s' ->
-  pass net now set_dl nread sub d 0 rs lm lnm stt nm s' = PFinal r ->
-  loop net now set_dl nread sub d rs dl next (S g) lm lnm stt nm s = r.
-Proof. exact (c02_terminal_stops_loop net now set_dl nread). Qed.
+  pass net now set_dl nread npush sub d 0 rs lm lnm stt nm s' = PFinal r ->
+  loop net now set_dl nread npush sub d rs dl next (S g) lm lnm stt nm s = r.
+Proof. exact (c02_terminal_stops_loop net now set_dl nread npush). Qed.
 End C02Steps.
 
 (* Non-vacuity: three No-stable routes, the first decided No early (its cached verdict is used on the
